@@ -74,7 +74,8 @@ def grow_all(env, crop_name, reload_):
 
 # ------------------------------------------------------------------ Runner
 def body_runner(E, n1, n2, cases, nvars, idim, const_is_dim, mode, b, reload_, shuf, base, t, j1, j2, j3,
-                unsorted=False, resow=False):
+                unsorted=False, resow=False, ovr=False, t2=0):
+    ck = {"constants": {"t": t2}} if cbool(ovr) else {}      # a constant given again, with another value, at sow time
     n1 = concretize(n1, 1, 2)
     n2 = concretize(n2, 1, 2)
     nvars = concretize(nvars, 1, 2)
@@ -94,9 +95,9 @@ def body_runner(E, n1, n2, cases, nvars, idim, const_is_dim, mode, b, reload_, s
     with E(pools=[js]) as env:
         direct = make_runner(base, nvars, idim, const_is_dim, t)
         if cbool(cases):
-            ref = direct.run_cases(pts, verbosity=0)
+            ref = direct.run_cases(pts, verbosity=0, **ck)
         else:
-            ref = direct.run_combos(combos, verbosity=0)
+            ref = direct.run_combos(combos, verbosity=0, **ck)
         r = make_runner(base, nvars, idim, const_is_dim, t)
         kw = {} if mode == 0 else ({"batchsize": b} if mode == 1 else {"num_batches": b})
         crop = r.Crop(name="rc", parent_dir=env.parent, **kw)
@@ -106,12 +107,12 @@ def body_runner(E, n1, n2, cases, nvars, idim, const_is_dim, mode, b, reload_, s
             crop.sow_combos({"a": [a + 50 for a in A[:n1]], "b": B[:n2]}, verbosity=0)
             grow_all(env, "rc", reload_)
         if cbool(cases):
-            crop.sow_cases(("a", "b"), pts, verbosity=0)
+            crop.sow_cases(("a", "b"), pts, verbosity=0, **ck)
         else:
             sk = {}
             if cbool(shuf):
                 sk["shuffle"] = env.seed_for(js, N)
-            crop.sow_combos(combos, verbosity=0, **sk)
+            crop.sow_combos(combos, verbosity=0, **sk, **ck)
         grow_all(env, "rc", reload_)
         if reload_:
             crop = cp.Crop(name="rc", parent_dir=env.parent)
@@ -291,6 +292,13 @@ CONDS = [
                "not shuf or (mode == 1 and b == 2 and not cases)", "not unsorted", "not resow"], timeout=600,
               bounds="2x2 grid / 3 cases, two variables: all batchings (b in 1..3), reload on/off; plus every "
                      "sow-time shuffle permutation (batchsize 2), reaped by the sowing object or by a reloaded one"),
+    make_cond(_G, "runner_sow_constants", body_runner, "n2:int cases:bool reload_:bool base:int t:int t2:int",
+              ["1 <= n2 <= 2"],
+              fixed=dict(n1=2, nvars=1, idim=False, const_is_dim=False, mode=1, b=2, shuf=False, j1=0, j2=0, j3=0,
+                         unsorted=False, resow=False, ovr=True), timeout=600,
+              bounds="Runner crops whose runner has a stored constant t (symbolic) and which are sown (combos or "
+                     "cases) with constants={'t': t2} (symbolic): equal to run_combos / run_cases of an identical "
+                     "runner with the same per-call constants; 2x1 and 2x2 grids, batchsize 2, reload on/off"),
 ] + split_conds(_G, "harvester", body_harvester, "n1:int pre:bool mode:int b:int reload_:bool base:int t:int p1:bool p2:bool",
               ["1 <= n1 <= 2 and 0 <= mode <= 2 and 1 <= b <= 2 and not p2", "pre or not p1"], "ow", [0, 1, 2],
               timeout=900,
